@@ -476,7 +476,8 @@ pub fn tpl_program(r: &mut Rng) -> String {
     let (c1, c2, c3, c4) = (cs[0], cs[1], cs[2], cs[3]);
     let n = r.range(2, 9);
     // shapes that took outside eyes to discover get extra weight
-    let shape = match r.below(24) {
+    let shape = match r.below(26) {
+        24 | 25 => 102,
         22 | 23 => 101,
         16 | 17 | 18 => 15,
         19 => 0,
@@ -486,6 +487,39 @@ pub fn tpl_program(r: &mut Rng) -> String {
         x => x,
     };
     match shape {
+        // a program that fails *late*: the SQL backend has already turned one or two
+        // let-tables into CTEs when it meets a set operation most dialects cannot express
+        // (EXCEPT ALL / INTERSECT ALL); whatever the translation had built by then must not
+        // outlive the call
+        102 => {
+            let m = r.range(2, 9);
+            // every relation keeps an open column list, so that the set operations type-check
+            let g1 = match r.below(3) {
+                0 => format!("from {t} | take {n}"),
+                1 => format!("from {t} | sort {c1} | take {n}"),
+                _ => format!("from {t} | filter {c2} > {n} | take {n}"),
+            };
+            let setop = *r.pick(&["remove", "intersect"]);
+            let bad = match r.below(3) {
+                0 => format!("from {u} | {setop} {t}"),
+                1 => format!("from {u} | filter {c1} != null | {setop} {t}"),
+                _ => format!("from {u} | take {m} | {setop} {t}"),
+            };
+            let tail = match r.below(4) {
+                0 => "from good\nappend bad".to_string(),
+                1 => "from good\nappend other\nappend bad".to_string(),
+                2 => format!("from good\njoin b = bad (=={c1})\nselect {{good.{c1}, b.{c2}}}"),
+                _ => format!("from other\nappend good\nappend bad\ntake {m}"),
+            };
+            // half of them name a dialect without EXCEPT ALL / INTERSECT ALL in their header
+            let header = match r.below(6) {
+                0 => "prql target:sql.sqlite\n",
+                1 => "prql target:sql.mssql\n",
+                2 => "prql target:sql.duckdb\n",
+                _ => "",
+            };
+            format!("{header}let good = ({g1})\nlet other = (from {u} | take {m})\nlet bad = ({bad})\n{tail}\n")
+        }
         // many columns: more than eight in a select, a partition, a sort, an exclusion list
         101 => {
             let k = r.range(9, 14);
@@ -640,6 +674,41 @@ pub fn tpl_program(r: &mut Rng) -> String {
 /// Programs that are *wrong* in ways that make the compiler enumerate candidates,
 /// arguments or columns in its message — error text is a claimed output, and messages
 /// assembled from hash containers were four of the findings.
+/// names declared by the standard library, with or without their module
+const STD_NAMES: &[&str] = &[
+    "min", "max", "sum", "average", "count", "stddev", "first", "last", "lag", "lead", "rank", "rank_dense",
+    "row_number", "every", "any", "all", "concat_array", "round", "as", "in", "text.lower", "text.upper",
+    "text.ltrim", "text.rtrim", "text.trim", "text.length", "text.extract", "text.replace", "text.starts_with",
+    "text.ends_with", "text.contains", "math.floor", "math.ceil", "math.round", "math.abs", "math.sin", "math.cos",
+    "math.tan", "math.asin", "math.acos", "math.atan", "math.exp", "math.ln", "math.log", "math.log10", "math.sqrt",
+    "math.pow", "math.pi", "math.degrees", "math.radians", "date.to_text", "gt", "gte", "lt", "lte", "eq", "ne", "add",
+    "sub", "mul", "div_i", "div_f", "mod", "and", "or", "coalesce", "neg", "not",
+];
+
+/// One slip of the finger in the last segment of a (possibly qualified) name.
+fn typo(name: &str, r: &mut Rng) -> String {
+    let (prefix, last) = match name.rfind('.') {
+        Some(i) => (&name[..=i], &name[i + 1..]),
+        None => ("", name),
+    };
+    let mut cs: Vec<char> = last.chars().collect();
+    let letter = (b'a' + r.below(26) as u8) as char;
+    let pos = if r.below(2) == 0 || cs.len() < 2 { 0 } else { r.below(cs.len()) };
+    match r.below(4) {
+        0 => cs[pos] = letter,
+        1 if cs.len() > 2 => {
+            cs.remove(pos);
+        }
+        2 => cs.insert(pos, letter),
+        _ if cs.len() >= 2 => {
+            let p = pos.min(cs.len() - 2);
+            cs.swap(p, p + 1);
+        }
+        _ => cs.push(letter),
+    }
+    format!("{prefix}{}", cs.into_iter().collect::<String>())
+}
+
 pub fn err_program(r: &mut Rng) -> String {
     let t = r.pick(TABLES).to_string();
     let u = r.pick(TABLES).to_string();
@@ -647,7 +716,35 @@ pub fn err_program(r: &mut Rng) -> String {
     r.shuffle(&mut cs);
     let (c1, c2, c3, c4) = (cs[0], cs[1], cs[2], cs[3]);
     let n = r.range(2, 9);
-    match r.below(38) {
+    match r.below(44) {
+        // near-miss names: a name that is one slip away from one, two or three declared names
+        // (a "did you mean" list, a candidate search) in function, transform and column position
+        38 | 39 => {
+            let base: &str = *r.pick(STD_NAMES);
+            let f = typo(base, r);
+            match r.below(3) {
+                0 => format!("from {t} | derive {{x = ({f} {c1})}}\n"),
+                1 => format!("from {t} | aggregate {{x = {f} {c1}, y = sum {c2}}}\n"),
+                _ => format!("from {t} | filter ({f} {c1} {n}) | select {{{c2}}}\n"),
+            }
+        }
+        40 => {
+            let k = r.range(3, 9);
+            match r.below(3) {
+                0 => format!("let rate1 = x -> x * 2\nlet rate2 = x -> x * 3\nfrom {t} | derive y = (rate{k} {c1})\n"),
+                1 => format!("let tab_a = (from {t})\nlet tab_b = (from {u})\nlet tab_c = (from {t} | take {n})\nfrom tab_{k} | select {{{c1}}}\n"),
+                _ => format!("module m {{ let f1 = x -> x + 1\n let f2 = x -> x + 2 }}\nfrom {t} | derive y = (m.f{k} {c1})\n"),
+            }
+        }
+        41 => {
+            let base: &str = *r.pick(&["select", "derive", "filter", "group", "aggregate", "sort", "take", "join", "window", "append", "intersect", "remove", "from"]);
+            let w = typo(base, r);
+            format!("from {t}\n{w} {{{c1}, {c2}}}\n")
+        }
+        42 | 43 => {
+            let k = r.range(3, 9);
+            format!("from {t} | select {{{c1}_1 = {c1}, {c1}_2 = {c2}, {c3}}} | filter {c1}_{k} > {n} | sort {{{c3}x}}\n")
+        }
         0 => format!("from {t} | select {{{c1}, {c2}, {c3}}} | derive {{{c4} = {c1}}} | filter zz_{n} > 1\n"),
         1 => format!("from a = {t} | join b = {u} (=={c1}) | join c = {t} (=={c1}) | select {{{c1}, {c2}}}\n"),
         2 => format!("from {t} | sort {c1} foo:{n} bar:2 baz:3\n"),
@@ -889,6 +986,39 @@ pub fn gen_project(r: &mut Rng, corpus: &Corpus) -> Project {
     if roots == 0 && r.below(2) == 0 {
         files.push(("".to_string(), format!("{} | take 1\n", refs[0])));
     }
+    // Two files for one module: the library derives the module path by dropping the
+    // extension, so `orders.prql` and `orders.sql` (or `orders`) both feed module `orders`.
+    // A PRNG stream of its own, so that the other projects of a seed stay what they were.
+    let mut xr = r.fork(0x2f11e);
+    if xr.below(5) == 0 {
+        let (path, _) = files[xr.below(nmods)].clone();
+        let stem = path.trim_end_matches(".prql");
+        let twin = match xr.below(3) {
+            0 => format!("{stem}.sql"),
+            1 => stem.to_string(),
+            _ => format!("{stem}.txt"),
+        };
+        let k = xr.below(100);
+        let body = match xr.below(3) {
+            // distinct names: only the order of the merged statements can differ
+            0 => format!("let v{k} = {k}\nlet w{k} = (from b{k})\n"),
+            // a clash: which file the 'duplicate declaration' error points at
+            1 => "let x = (from other_side | select {y, u})\n".to_string(),
+            _ => format!("let helper{k} = func a:1 v -> v + a\nlet x = (from clash{k})\n"),
+        };
+        files.push((twin, body));
+    }
+    // File names that are not valid UTF-8 (`%XX` = raw byte, decoded by the operation): each
+    // is an 'Invalid file path' error; with two of them, which one is reported?
+    if xr.below(12) == 0 {
+        files.push((format!("a%FF{}.prql", xr.below(10)), "let x1 = 1\n".to_string()));
+        if xr.below(3) != 0 {
+            files.push((format!("b%FE{}.prql", xr.below(10)), "let y1 = 2\n".to_string()));
+        }
+        if xr.below(3) == 0 {
+            files.push((format!("sub/c%C3%28{}.prql", xr.below(10)), "let z1 = 3\n".to_string()));
+        }
+    }
     Project {
         files,
         main_path: Vec::new(),
@@ -925,6 +1055,10 @@ pub const FRAGILE: &[&str] = &[
     "from t | select (_eq a)",
     "from t | select {a, b} | append (from u | select {c})",
     "let f = x -> internal std.no_such_op\nfrom t | select (f a)",
+    // an operator name that resolves to a module, not to a function
+    "let f = x -> internal std.math\nfrom t | select (f a)",
+    "let g = x y -> internal std.text\nfrom t | derive z = (g a b) | take 3",
+    "let h = x -> internal std.sql\nfrom t | filter (h a)",
     "from t | select `*`",
     "from albums | select {b, x} | append (from orders | select {b, x, end})",
 ];
@@ -949,6 +1083,10 @@ const DIALECT_SENSITIVE: &[&str] = &[
     "from t | derive {a + 1, s\"NOW()\"} | take 5 | derive {d = (b | date.to_text \"%Q\")} | filter a > 1",
     "from t | select {s = s\"CONCAT({a}, {b})\", f = f\"{a}-{b}\"} | filter (s ~= \"x\") | take 3",
     "from t | derive {`identity` = a, `offset` = b} | select {`identity`, `offset`, `date`, `window`}",
+    // fail late in the SQL backend of sqlite / mssql / duckdb (no EXCEPT ALL / INTERSECT ALL),
+    // after a let-table has become a CTE
+    "let good = (from a | take 5)\nlet bad = (from film | remove film2)\nfrom good\nappend bad",
+    "let g = (from t | sort x | take 3)\nlet h = (from u | take 2 | intersect t)\nfrom g | join h (==id) | select {g.x, h.y}",
 ];
 
 impl<'a> Gen<'a> {
